@@ -69,6 +69,41 @@ def has_yield(stmts):
     return False
 
 
+def _obj_snapshot(env, skip):
+    """attribute tables of the objects bound to local names that the loop head did NOT havoc"""
+    snap = {}
+    for name, v in env.vars.items():
+        if name in skip:
+            continue
+        if v.__class__.__name__ in ("SObj", "AbstractObj") and isinstance(getattr(v, "attrs", None), dict):
+            snap[name] = (v, dict(v.attrs))
+    return snap
+
+
+def _same_val(a, b):
+    if a is b:
+        return True
+    if is_sym(a) and is_sym(b):
+        try:
+            return a.eq(b)
+        except Exception:
+            return False
+    if isinstance(a, (bool, int, str, float)) and type(a) is type(b):
+        return a == b
+    return False
+
+
+def _check_obj_frame(env, snap, ordinal):
+    """the body of a loop cut by an invariant was executed from a havoc'd state: an object the havoc did not cover must
+    not be written by the body (its state after earlier iterations would be taken to be the state before the loop)"""
+    for name, (o, before) in snap.items():
+        after = o.attrs
+        for k_ in set(before) | set(after):
+            if k_ not in before or k_ not in after or not _same_val(before[k_], after[k_]):
+                raise Undecided(f"loop #{ordinal} body writes attribute .{k_} of `{name}`, which is not havoc'd at the loop head "
+                                f"(add a loop_havoc entry for `{name}`)")
+
+
 class Retype(Exception):
     """a loop variable havoc'd as an integer (its value before the loop was one) is assigned a real in the loop body:
     the job is restarted with that variable havoc'd as a real"""
@@ -187,7 +222,7 @@ def exec_for(I, node, env):
     # --- havoc
     custom = ctr.loop_havoc.get(ordinal, {}) if ctr else {}
     int_havoc = []
-    for name in sorted(mod):
+    for name in sorted(mod | set(custom)):
         if name in custom:
             env.vars[name] = custom[name](I, state_ns(I, env, 0, count))
         elif name in env.vars:
@@ -206,12 +241,14 @@ def exec_for(I, node, env):
         ctx.assume(z3.And(k >= 0, k < to_z3(count)))
         ctx.assume(inv(state_ns(I, env, k, count)))
         I.assign(node.target, item(k), env)
+        snap = _obj_snapshot(env, mod | set(custom))
         try:
             I.exec_block(node.body, env)
         except ContinueSig:
             pass
         except BreakSig:
             raise Undecided("break inside a loop cut by an invariant")
+        _check_obj_frame(env, snap, ordinal)
         _check_havoc_types(I, env, fname, ordinal, int_havoc)
         ctx.prove(f"inv-pres:{fname}#loop{ordinal}", "inv-pres", inv(state_ns(I, env, simp(k + 1), count)))
         if ctr is not None and ctr.events and ordinal in ctr.events:
@@ -264,7 +301,7 @@ def exec_while(I, node, env):
     choice = ctx.choose(2, f"loop{ordinal}")
     custom = ctr.loop_havoc.get(ordinal, {}) if ctr else {}
     int_havoc = []
-    for name in sorted(mod):
+    for name in sorted(mod | set(custom)):
         if name in custom:
             env.vars[name] = custom[name](I, state_ns(I, env, 0, None))
         elif name in env.vars:
@@ -275,12 +312,14 @@ def exec_while(I, node, env):
     c = I.as_bool(I.eval(node.test, env))
     if choice == 0:
         ctx.assume(c)
+        snap = _obj_snapshot(env, mod | set(custom))
         try:
             I.exec_block(node.body, env)
         except ContinueSig:
             pass
         except BreakSig:
             raise Undecided("break inside a loop cut by an invariant")
+        _check_obj_frame(env, snap, ordinal)
         _check_havoc_types(I, env, fname, ordinal, int_havoc)
         ctx.prove(f"inv-pres:{fname}#loop{ordinal}", "inv-pres", inv(state_ns(I, env, 0, None)))
         raise PathEnd("loop cut (preservation path)")
